@@ -253,6 +253,11 @@ func (r *Runner) runJob(job Job, st *Store, sol *Solver) (jr JobResult) {
 			jr.Bounded++
 		default:
 			jr.Undecided = append(jr.Undecided, pr.Reason)
+			if job.ProbeHang && strings.Contains(pr.Reason, "blocked forever") && len(jr.Hangs) < 2 {
+				// a deadlock under the modelled schedule (every other goroutine has finished or
+				// is blocked for good): confirmed natively under the watchdog or left undecided
+				r.probeDirect(job, e, e.pcs, &jr)
+			}
 			if job.ProbeHang && len(e.pcs) > len(hangPCs) && (strings.Contains(pr.Reason, "budget") || strings.Contains(pr.Reason, "unwinding") || strings.Contains(pr.Reason, "bound exceeded")) {
 				hangPCs = append([]*Term(nil), e.pcs...)
 			}
@@ -678,5 +683,34 @@ func (r *Runner) probeHang(job Job, e *Exec, pcs []*Term, jr *JobResult) {
 				return
 			}
 		}
+	}
+}
+
+// probeDirect: run the harness natively under the watchdog on a model of this
+// very path (used when the interpreter found the main goroutine blocked for good).
+func (r *Runner) probeDirect(job Job, e *Exec, pcs []*Term, jr *JobResult) {
+	as := append([]*Term(nil), pcs...)
+	var rf *ReplayFile
+	var err error
+	if len(as) == 0 {
+		rf = &ReplayFile{Vals: map[string]uint64{}, Arrays: map[string]ReplayAr{}}
+	} else if rf, err = extractModel(e, as); err != nil {
+		return
+	}
+	rf.Dir, rf.Harness, rf.Params = job.Dir, job.Harness, job.Params
+	rf.Failed = []string{"terminates"}
+	rf.Detail = "the harness did not return within the watchdog when run natively on this input (the interpreter found the main goroutine blocked for good under the modelled schedule)"
+	rf.Solver = e.sol.name
+	path, err := writeReplay(rf, "probe", job.Label+fmt.Sprintf("/terminates/deadlock%d", len(jr.Hangs)))
+	if err != nil {
+		return
+	}
+	r.L.wdMu.Lock()
+	r.L.watchdog = "10s"
+	res, _, _ := r.L.RunNative(job.Dir, []string{path}, false)
+	r.L.watchdog = ""
+	r.L.wdMu.Unlock()
+	if len(res) == 1 && res[0].Hang {
+		jr.Hangs = append(jr.Hangs, rf)
 	}
 }
